@@ -44,6 +44,11 @@ CHECKS = {
                 text='For each generated problem the solver is run with a counting quota that turns true at its k-th poll (every k up to 40, then a stride, up to the number of polls of a free run), with the termination criterion firing at its j-th check, '
                      'and with the real 1 s time limit behind a 1.1 s pre-processing step. Every run must return Ok; its recorded sequence of quota polls / termination checks must be a behaviour of the control-loop model Solver.tla (whose invariants - a solution is returned, generations bounded, no generation after the guard saw the stop - are model-checked exhaustively), and the returned solution must satisfy the C01-C03 definitions of VrpModel.',
                 note='trusted: TLC; runs are single threaded so that event order = call order (multi-threaded layouts are exercised by C01/C15 without trace validation); poll points are not labelled by kind (hook H2 not built), the model distinguishes them by position.'),
+    'C12': dict(category='model_checking', design_ref='DESIGN.md section 6 C12', technique='TLC enumerates single-breach mutants of valid recorded solutions (Checker.tla over VrpModel), replayed into the bundled checker',
+                text='Positive: every solver-made solution that the specification (VrpModel!Valid) accepts must be accepted by CheckerContext::check. Negative: for a sample of those records TLC enumerates every (breach class, site) mutation '
+                     '(misreported load, unknown / duplicated / dropped / split job, assigned and unassigned, arrival / distance / statistic mismatch, capacity below load, distance / duration / tour-size limit, broken relation, misplaced break), keeps those whose mutated pair the specification finds invalid, '
+                     'and the driver applies each descriptor to the real documents: the checker must answer Err.',
+                note='trusted: TLC; the mechanical application of breach descriptors in checks/checker.py; explicit matrices always supplied. Magnitudes exceed the checker tolerances (+-1).'),
     'C20': dict(category='model_checking', design_ref='DESIGN.md section 6 C20', technique='TLC-enumerated cases replayed into the evaluator, quotes and realised fitness change judged by Insertion.tla',
                 text='Same exhaustive enumeration as C06 under two goals ([unassigned, tours, distance] and [value, unassigned, cost]): the quoted cost vector of the chosen insertion is compared layer by layer with the model value of the objective change and with the fitness change the code measures after really inserting; cost layer only where the model finds no waiting before and after.',
                 note='trusted: TLC; integer worlds (all quotes are integers, compared exactly at 1/1000); time-independent routing; no conditional jobs (the ignored-jobs special case of the unassigned objective is outside the domain, see DESIGN).'),
